@@ -1,6 +1,214 @@
-/- Line-protocol driver for engine `vacuum` — not built yet (stub). -/
+/-
+  Line-protocol driver for engine `vacuum` (C13).
+
+  Case (1):  vac <setup…> | <op> ; <op> ; …
+     setup and the session / statement ops are those of engine `hist` (see Driver/Hist.lean), plus
+       vac        Database::vacuum                                   → `vac`
+       vacchk     SELECT * of every table; VACUUM; the same SELECTs  → `vac(same)` | `PROPFAIL-vac-changed(<before>-><after>)`
+       reopen     every open session dropped, handle dropped, Database::open → `reopen`
+     an operation of a session that was open when a VACUUM ran ("killed") must fail: `nosession` (whatever the error);
+     if it answers: `PROPFAIL-killed-session-answered(<token>)`.
+     Output: one token per op, ` | `, `<table>=[rows]` for every table (final committed state).
+  Case (2):  cycles rows=<n> cycles=<c> reopen=<k> how=auto|sess|batch|rbk
+     n rows, then c times (UPDATE every row; VACUUM), reopen after every k-th cycle (0 = never)
+     → `bounded rows=<n> wrong=<rows whose value is not c> probe=ok` | `PROPFAIL growth …`
+  Flags: the field names of `Db.Defects` and of `Db.VDefects`.
+-/
+import AxVerif.Model.Vacuum
+import AxVerif.Driver.Hist
+namespace AxVerif.Db.VDrv
+open AxVerif AxVerif.Db AxVerif.Db.Drv
+
+inductive COp where
+  | h (o : Op)
+  | vac
+  | vacchk
+  | reopen
+
+def parseCOp (ws : List String) : Option COp :=
+  match ws with
+  | ["vac"] => some .vac
+  | ["vacchk"] => some .vacchk
+  | ["reopen"] => some .reopen
+  | _ => (parseOp ws).map COp.h
+
+def parseCase (line : String) : Option (Setup × List COp) :=
+  let line := line.trimAscii.toString
+  if !line.startsWith "vac " then none
+  else match (line.drop 4).toString.splitOn "|" with
+    | [setup, ops] =>
+      match parseSetup (words setup) {} with
+      | none => none
+      | some st =>
+        let ops := ops.trimAscii.toString
+        if ops.isEmpty then some (st, [])
+        else (allSome ((ops.splitOn " ; ").map (fun o => parseCOp (words o)))).map (fun os => (st, os))
+    | _ => none
+
+def parseV (flags : List String) : VDefects :=
+  { vacuumRemovesUncommittedDelete := flags.contains "vacuumRemovesUncommittedDelete",
+    vacuumDropsHorizonVersion := flags.contains "vacuumDropsHorizonVersion",
+    cleanupForgetsAborted := flags.contains "cleanupForgetsAborted",
+    vacuumLeavesSessionsOpen := flags.contains "vacuumLeavesSessionsOpen" }
+
+def vNames : List String :=
+  ["vacuumRemovesUncommittedDelete", "vacuumDropsHorizonVersion", "cleanupForgetsAborted", "vacuumLeavesSessionsOpen"]
+
+def isFailure : Out → Bool
+  | .stmt (.err _) => true
+  | .noSession => true
+  | .conflict => true
+  | .batchErr _ => true
+  | _ => false
+
+def showV : VOut → String
+  | .out o => showOut true o
+  | .dead o => if isFailure o then "nosession" else "PROPFAIL-killed-session-answered(" ++ showOut true o ++ ")"
+
+/-- SELECT * of every table by autocommit statements -/
+def selectAll (D : Defects) (V : VDefects) (tabs : List TableSchema) (τ : VState) : VState × List String :=
+  tabs.foldl (fun (acc : VState × List String) t =>
+    let r := vstep D V acc.1 (.op (.auto (.sel t.name none)))
+    (r.1, acc.2 ++ [t.name ++ "=" ++ showV r.2])) (τ, [])
+
+def runOps (D : Defects) (V : VDefects) (tabs : List TableSchema) : VState → List COp → List String → VState × List String
+  | τ, [], acc => (τ, acc.reverse)
+  | τ, .h o :: os, acc =>
+    let r := vstep D V τ (.op o)
+    runOps D V tabs r.1 os (showV r.2 :: acc)
+  | τ, .vac :: os, acc => runOps D V tabs (vstep D V τ .vacuum).1 os ("vac" :: acc)
+  | τ, .reopen :: os, acc => runOps D V tabs (vstep D V τ .reopen).1 os ("reopen" :: acc)
+  | τ, .vacchk :: os, acc =>
+    let (τ1, before) := selectAll D V tabs τ
+    let τ2 := (vstep D V τ1 .vacuum).1
+    let (τ3, after) := selectAll D V tabs τ2
+    let tok := if before == after then "vac(same)"
+      else "PROPFAIL-vac-changed(" ++ joinWith "," before ++ "->" ++ joinWith "," after ++ ")"
+    runOps D V tabs τ3 os (tok :: acc)
+
+def runSetup (D : Defects) (V : VDefects) (st : Setup) : Option VState :=
+  (setupOps st).foldl (fun (acc : Option VState) o =>
+    match acc with
+    | none => none
+    | some τ =>
+      let r := vstep D V τ (.op o)
+      match r.2 with
+      | .out x => if isFailure x then none else some r.1
+      | .dead _ => none) (some (VState.init st.tables))
+
+def runHist (D : Defects) (V : VDefects) (st : Setup) (ops : List COp) : String :=
+  match runSetup D V st with
+  | none => "bad-setup"
+  | some τ0 =>
+    let (τ1, toks) := runOps D V st.tables τ0 ops []
+    let (_, fin) := selectAll D V st.tables τ1
+    s!"{joinWith " " toks} | {joinWith " " fin}"
+
+/-! ### growth family -/
+
+structure Cycles where
+  rows : Nat
+  cycles : Nat
+  reopen : Nat
+  how : String
+
+def parseNum (s : String) : Option Nat :=
+  match parseInt s with
+  | some (.ofNat n) => if n ≤ 100000 then some n else none
+  | _ => none
+
+def parseCycles (line : String) : Option Cycles :=
+  match words line with
+  | ["cycles", a, b, c, d] =>
+    if a.startsWith "rows=" && b.startsWith "cycles=" && c.startsWith "reopen=" && d.startsWith "how=" then
+      match parseNum (a.drop 5).toString, parseNum (b.drop 7).toString, parseNum (c.drop 7).toString with
+      | some n, some cy, some k =>
+        let how := (d.drop 4).toString
+        if (how = "auto" || how = "sess" || how = "batch" || how = "rbk") && 1 ≤ n && n ≤ 2000 && 1 ≤ cy && cy ≤ 200 then
+          some ⟨n, cy, k, how⟩
+        else none
+      | _, _, _ => none
+    else none
+  | _ => none
+
+def catCycles : Catalog := [⟨"t", [⟨"k", .big, false, false⟩, ⟨"v", .int, false, false⟩]⟩]
+
+/-- rows k..hi as INSERT batches of 50 -/
+def insertBatches (n : Nat) : List Op :=
+  let chunks := (List.range ((n + 49) / 50)).map (fun c =>
+    (List.range 50).filterMap (fun i => let k := c * 50 + i + 1; if k ≤ n then some [Val.int k, Val.int 0] else none))
+  chunks.map (fun rows => Op.auto (.ins "t" rows))
+
+def cycleOps (c : Cycles) (i : Nat) : List Op :=
+  let upd : Stmt := .upd "t" "v" true (.int 1) none
+  let main : List Op :=
+    if c.how = "sess" then [.begin "s1", .exec "s1" upd, .commit "s1"]
+    else if c.how = "batch" then
+      let half : Int := c.rows / 2
+      [.batch [.upd "t" "v" true (.int 1) (some ⟨"k", .le, .int half⟩), .upd "t" "v" true (.int 1) (some ⟨"k", .gt, .int half⟩)]]
+    else [.auto upd]
+  if c.how = "rbk" then main ++ [.begin "s1", .exec "s1" (.ins "t" [[.int (100000 + i), .int 7]]), .rollback "s1"] else main
+
+def stepAll (D : Defects) (V : VDefects) (τ : VState) (ops : List Op) : VState × Bool :=
+  ops.foldl (fun (acc : VState × Bool) o =>
+    let r := vstep D V acc.1 (.op o)
+    (r.1, acc.2 && (match r.2 with | .out x => !isFailure x | .dead _ => false))) (τ, true)
+
+def runCycles (D : Defects) (V : VDefects) (c : Cycles) : String :=
+  let τ0 := (stepAll D V (VState.init catCycles) ([Op.tick] ++ insertBatches c.rows)).1
+  let rec go (fuel : Nat) (i : Nat) (τ : VState) (sizes : List Nat) : Option (VState × List Nat) :=
+    match fuel with
+    | 0 => some (τ, sizes.reverse)
+    | fuel + 1 =>
+      let (τ1, ok) := stepAll D V τ (cycleOps c i)
+      if !ok then none
+      else
+        let τ2 := (vstep D V τ1 .vacuum).1
+        let τ3 := if c.reopen > 0 && i % c.reopen == 0 then (vstep D V τ2 .reopen).1 else τ2
+        go fuel (i + 1) τ3 (τ2.db.size :: sizes)
+  match go c.cycles 1 τ0 [] with
+  | none => "cycle-failed"
+  | some (τ, sizes) =>
+    let r := vstep D V τ (.op (.auto (.sel "t" none)))
+    let content := match r.2 with
+      | .out (.stmt (.rows rs)) =>
+        let wrong := rs.filter (fun (row : List Val) => row.getD 1 Val.null != Val.int c.cycles)
+        s!"rows={rs.length} wrong={wrong.length}"
+      | _ => "select-failed"
+    let (τp, okp) := stepAll D V r.1 [.auto (.ins "t" [[.int 999999, .int 1]]), .auto (.del "t" (some ⟨"k", .eq, .int 999999⟩))]
+    let _ := τp
+    let probe := if okp then "probe=ok" else "probe-failed"
+    let verdict :=
+      if sizes.length ≥ 10 then
+        let s3 := sizes.getD 2 0
+        let worst := (sizes.drop 9).foldl max 0
+        if worst ≤ s3 then "bounded" else s!"PROPFAIL growth cycle3={s3} max-after-cycle10={worst}"
+      else "bounded"
+    s!"{verdict} {content} {probe} ## sizes={joinWith "," (sizes.map toString)}"
+
+def runLine (flags : List String) (line : String) : String :=
+  let D := parseDefects flags
+  let V := parseV flags
+  if (words line).head? == some "cycles" then
+    match parseCycles line with
+    | none => "bad-op"
+    | some c => runCycles D V c
+  else
+    match parseCase line with
+    | none => "bad-op"
+    | some (st, ops) =>
+      if hasDup (st.tables.map (·.name)) then "bad-setup"
+      else
+        let go (fl : List String) : String := runHist (parseDefects fl) (parseV fl) st ops
+        let out := go flags
+        let known := defectNames ++ vNames
+        let fired := (flags.filter known.contains).filter (fun f => go (flags.filter (· != f)) != out)
+        if fired.isEmpty then out else out ++ " ## fired=" ++ joinWith "," fired
+
+end AxVerif.Db.VDrv
+
 namespace AxVerif.Drivers
 
-def vacuum (_flags : List String) (_line : String) : String := "unimplemented"
+def vacuum (flags : List String) (line : String) : String := AxVerif.Db.VDrv.runLine flags line
 
 end AxVerif.Drivers
